@@ -172,7 +172,10 @@ func smallU(r *rand.Rand) uint64 {
 	case 0:
 		return uint64(1 + r.IntN(3))
 	case 1:
-		return vh.U64Edge(r)
+		if v := vh.U64Edge(r); v != 0 { // zero (a guard) comes from the malformed stream only
+			return v
+		}
+		return 1
 	default:
 		return uint64(1 + r.IntN(1000))
 	}
@@ -289,7 +292,10 @@ func gen(r *rand.Rand, tier string, i int) input {
 	switch r.IntN(5) {
 	case 0, 1: // genesis
 	case 2:
-		m.BaseOffset = math.MaxUint64 - uint64(n) - uint64(r.IntN(2)) + uint64(r.IntN(2))
+		m.BaseOffset = math.MaxUint64 - uint64(n) - uint64(r.IntN(3))
+		if r.IntN(8) == 0 {
+			m.BaseOffset = math.MaxUint64 - uint64(n) + 1 // one too far: uint64 overflow guard
+		}
 	default:
 		m.BaseOffset = smallU(r)
 	}
